@@ -71,6 +71,17 @@ func (b *builder) autoRepo() (string, error) {
 	if err != nil {
 		return "", err
 	}
+	// the generated helpers are generic functions: the copy's go.mod must allow them (the loop-variable semantics of
+	// the repository's "go 1.17" are kept: they only change with go 1.22)
+	if gm, err := os.ReadFile(filepath.Join(dst, "go.mod")); err == nil {
+		lines := strings.Split(string(gm), "\n")
+		for i, l := range lines {
+			if strings.HasPrefix(l, "go 1.") {
+				lines[i] = "go 1.20"
+			}
+		}
+		os.WriteFile(filepath.Join(dst, "go.mod"), []byte(strings.Join(lines, "\n")), 0o644)
+	}
 	for _, pkg := range []string{"pkg/pow", "pkg/pow/v2"} {
 		if _, err := autoyield.Package(filepath.Join(dst, pkg)); err != nil {
 			return "", fmt.Errorf("auto-yield instrumentation: %w", err)
@@ -115,6 +126,8 @@ func flavourFlags(f string) []string {
 		return []string{"-tags", "verif,verifauto"}
 	case "racepurego":
 		return []string{"-tags", "verif,purego", "-race"}
+	case "386":
+		return []string{"-tags", "verif"} // built with GOARCH=386: 32-bit words, 4-byte alignment of 64-bit fields
 	}
 	panic("unknown flavour " + f)
 }
@@ -142,6 +155,9 @@ func (b *builder) binary(flavour string) (string, error) {
 	cmd := exec.Command(goBin, args...)
 	cmd.Dir = filepath.Join(verifDir, "sim")
 	cmd.Env = goEnv()
+	if flavour == "386" {
+		cmd.Env = append(cmd.Env, "GOARCH=386", "CGO_ENABLED=0")
+	}
 	var buf bytes.Buffer
 	cmd.Stdout, cmd.Stderr = &buf, &buf
 	if err := cmd.Run(); err != nil {
